@@ -28,7 +28,7 @@ ASSUMPTIONS = [
 ]
 MONITORS = ["tick_text", "construct", "inexact", "arith", "history", "beatvalues", "beatvalues_inplace_edit", "beatvalues_slice", "timing_string", "timingdata"]
 REQUIRED = ["two_events_on_one_beat", "arith_mixed_int", "arith_mixed_fraction", "inexact_half_tick_boundary", "timing_string_linebreaks",
-            "rows_not_in_beat_order_timing_string", "rows_not_in_beat_order_timingdata", "inexact_value_of_a_subclass"]
+            "rows_not_in_beat_order_timing_string", "rows_not_in_beat_order_timingdata", "inexact_value_of_a_subclass", "pair_with_negative_denominator"]
 
 TICK_LIMIT = 96000
 
@@ -204,14 +204,19 @@ def check(ctx, case):
         elif form == "fraction":
             b = Beat(Fraction(n, d))
         elif form == "pair":
-            b = Beat(n, d)
+            if (n + d) % 3 == 0:
+                b = Beat(-n, -d)   # the same rational written with a negative denominator
+                ctx.feat("pair_with_negative_denominator")
+            else:
+                b = Beat(n, d)
         elif form == "beat":
             b = Beat(Beat(n, d))
         else:
             bn, bd = case["b"]
             exact = Fraction(Fraction(n, d), Fraction(bn, bd))
             b = Beat(Fraction(n, d), Fraction(bn, bd))
-        ctx.expect(type(b) is Beat and Fraction(b.numerator, b.denominator) == exact,
+        ctx.expect(type(b) is Beat and Fraction(b.numerator, b.denominator) == exact and b == exact and hash(b) == hash(exact)
+                   and b.denominator > 0 and (b < exact + 1) and not (b < exact),
                    "construct:" + form, expected=str(exact), got=repr(b), type=type(b).__name__)
         return
 
